@@ -84,6 +84,9 @@ func (p *clientStreamProcessorFMP4) run(ctx context.Context) error {
 	// tracks with unsupported codecs are not exposed
 	for _, track := range p.init.Tracks {
 		if codecs.FromFMP4(track.Codec) != nil {
+			if track.TimeScale == 0 {
+				return fmt.Errorf("track %d has an invalid time scale", track.ID)
+			}
 			p.supportedTracks = append(p.supportedTracks, track)
 		}
 	}
